@@ -239,6 +239,8 @@ pub struct Divergence {
 pub struct Dirs {
     pub live: PathBuf,
     pub fresh: PathBuf,
+    /// what the `fresh` directory holds (rewritten only when that changes)
+    fresh_holds: std::cell::RefCell<Option<(String, BTreeMap<usize, String>)>>,
 }
 
 impl Dirs {
@@ -247,7 +249,7 @@ impl Dirs {
         let _ = std::fs::remove_dir_all(&base);
         std::fs::create_dir_all(&base).expect("mkdir");
         let base = base.canonicalize().expect("canon");
-        Dirs { live: base.join("live"), fresh: base.join("fresh") }
+        Dirs { live: base.join("live"), fresh: base.join("fresh"), fresh_holds: std::cell::RefCell::new(None) }
     }
 }
 
@@ -311,7 +313,12 @@ fn answers(s: &mut Server, rel: &str, positions: &[(u32, u32)]) -> Vec<(String, 
 
 fn fresh_servers(dirs: &Dirs, schema: &str, m: &Model) -> Result<Vec<(&'static str, Server)>, String> {
     // (1) materialised: the effective contents are what is on disk
-    reset_dir(&dirs.fresh, schema, &m.effective());
+    let eff = m.effective();
+    let key = (schema.to_string(), eff);
+    if dirs.fresh_holds.borrow().as_ref() != Some(&key) {
+        reset_dir(&dirs.fresh, schema, &key.1);
+        *dirs.fresh_holds.borrow_mut() = Some(key);
+    }
     let a = Server::start(&dirs.fresh)?;
     // (2) reopened: the real disk, then the editor re-sends its open buffers
     let mut b = Server::start(&dirs.live)?;
@@ -526,7 +533,17 @@ fn shrink_history(dirs: &Dirs, h: &History, d: &Divergence, pos_seed: u64) -> (H
     let mut cur = History { schema: h.schema.clone(), initial: h.initial.clone(), ops: h.ops[..=d.step.min(h.ops.len() - 1)].to_vec() };
     let mut cur_d = d.clone();
     let mut scratch = BTreeMap::new();
-    let mut budget = 400usize;
+    let mut budget = 120usize;
+    // fast path: often the last state-changing step plus the observation suffices
+    if let Some(k) = cur.ops.iter().rposition(|o| !matches!(o, Op::Check { .. } | Op::Tick)) {
+        let cand = History { schema: cur.schema.clone(), initial: cur.initial.clone(), ops: cur.ops[k..].to_vec() };
+        if let Ok(Some(nd)) = run_history(dirs, &cand, pos_seed, &mut scratch) {
+            if same_cause(&nd, d) {
+                cur = History { schema: cand.schema, initial: cand.initial, ops: cand.ops[..=nd.step].to_vec() };
+                cur_d = nd;
+            }
+        }
+    }
     loop {
         let mut changed = false;
         // ops, last to first (the final observing op stays)
